@@ -268,7 +268,7 @@ class C17(Prop):
         q = tier == 'quick'
         k = 0
         srcs = []
-        for j in range(1200 if q else 30000):
+        for j in range(1200 if q else 18000):
             k += 1
             if want(k):
                 rng = random.Random('%d/%d/c17f' % (seed, j))
@@ -277,7 +277,7 @@ class C17(Prop):
                 else:
                     src, _ = docgen.gen_doc(rng, common.cfg_general(j, 'quick'))
                 yield k, {'w': 'forms', 'src': src[:400], 'j': j}
-        for j in range(600 if q else 15000):
+        for j in range(600 if q else 9000):
             k += 1
             if want(k):
                 ra = random.Random('%d/%d/c17a' % (seed, j))
@@ -285,7 +285,7 @@ class C17(Prop):
                 b, _ = docgen.gen_doc(ra, docgen.Cfg(2, 3, env=['a', 'center'], cmd=['foo', 'x']))
                 yield k, {'w': 'interleave', 'a': a[:200], 'b': b[:200], 'j': j,
                           'skip_a': ['a'] if j % 4 == 0 else []}
-        for j in range(800 if q else 20000):
+        for j in range(800 if q else 12000):
             k += 1
             if want(k):
                 rng = random.Random('%d/%d/c17n' % (seed, j))
